@@ -279,14 +279,24 @@ impl World {
     }
 }
 
-/// committed(k, id): the runtime answers Duplicate although the id is not pending.
-fn committed(w: &View<'_>, k: &WriterHeadKey, env: &IngressEnvelope) -> bool {
-    let id = env.ingress_id();
-    let pend = pending_of(w.rt.heads().get(k).unwrap().inbox());
-    if pend.contains(&id) {
-        return false;
+/// committed(k, id): the runtime answers Duplicate although the id is not pending.  One clone of the runtime
+/// serves all probes of a dump (an Accepted probe only adds that very id to the clone's inbox).
+fn committed_set(w: &View<'_>) -> BTreeSet<(WriterHeadKey, [u8; 32])> {
+    let mut probe = w.rt.clone();
+    let mut out = BTreeSet::new();
+    let mut pend: BTreeMap<WriterHeadKey, Vec<[u8; 32]>> = BTreeMap::new();
+    for k in w.live {
+        pend.insert(*k, pending_of(w.rt.heads().get(k).unwrap().inbox()));
     }
-    matches!(w.rt.clone().ingest(env.clone()), Ok(IngressDisposition::Duplicate { .. }))
+    for ((k, id), env) in w.intents {
+        if !w.live.contains(k) || pend[k].contains(id) {
+            continue;
+        }
+        if matches!(probe.ingest(env.clone()), Ok(IngressDisposition::Duplicate { .. })) {
+            out.insert((*k, *id));
+        }
+    }
+    out
 }
 
 /// Components of the canonical fingerprint (name, value); fault evidence and the derived runnable
@@ -335,10 +345,8 @@ fn fingerprint(w: &View<'_>) -> Vec<(String, String)> {
         v.push((format!("head{n}.pending"), pending_of(h.inbox()).iter().map(short).collect::<Vec<_>>().join("+")));
         v.push((format!("head{n}.flags"), format!("{:?}/{}/{:?}", h.eligibility(), h.is_paused(), h.inbox().policy())));
     }
-    for ((k, _id), env) in w.intents {
-        if w.live.contains(k) && committed(w, k, env) {
-            v.push((format!("committed.{}.{}", head_str(k), short(&env.ingress_id())), "1".into()));
-        }
+    for (k, id) in committed_set(w) {
+        v.push((format!("committed.{}.{}", head_str(&k), short(&id)), "1".into()));
     }
     let subs: Vec<String> = w
         .rt
@@ -452,6 +460,7 @@ fn fault_lines(w: &World) -> Vec<String> {
 /// The model-comparable dump.
 fn dump(w: &World) -> String {
     let mut out = format!("g={}", w.rt.global_tick().as_u64());
+    let cset = committed_set(&w.view());
     for (wl, f) in w.rt.worldlines().iter() {
         let s = f.state();
         let mut ev: Vec<String> = Vec::new();
@@ -465,8 +474,8 @@ fn dump(w: &World) -> String {
         }
         ev.sort();
         let mut cm: Vec<String> = Vec::new();
-        for ((k, id), env) in &w.intents {
-            if k.worldline_id == *wl && w.live.contains(k) && committed(&w.view(), k, env) {
+        for (k, id) in &cset {
+            if k.worldline_id == *wl {
                 cm.push(format!("{}/{}", sh(k.head_id.as_bytes()), short(id)));
             }
         }
@@ -819,9 +828,10 @@ fn run_case(line: &str) -> String {
                                 flags.push("pending-after-pass-not-before-minus-batch".into());
                             }
                         }
+                        let cset = committed_set(&w.view());
                         for (k, b) in &predicted {
                             for id in b {
-                                if !w.intents.get(&(*k, *id)).is_some_and(|env| committed(&w.view(), k, env)) {
+                                if !cset.contains(&(*k, *id)) {
                                     flags.push("admitted-ingress-not-recorded-as-committed".into());
                                 }
                             }
